@@ -69,9 +69,13 @@ void ezc3d::DataNS::AnalogsNS::Analogs::subframe(const ezc3d::DataNS::AnalogsNS:
     if (idx == SIZE_MAX)
         _subframe.push_back(subframe);
     else{
-        if (idx >= nbSubframes())
+        if (idx >= nbSubframes()){
+            // The subframe may be one of the subframes of this object: copy it before the storage is moved by the resize
+            ezc3d::DataNS::AnalogsNS::SubFrame copy(subframe);
             _subframe.resize(idx+1);
-        _subframe[idx] = subframe;
+            _subframe[idx] = copy;
+        } else
+            _subframe[idx] = subframe;
     }
 }
 
